@@ -176,7 +176,7 @@ func runC07(c *Ctx, r *Report) {
 		if t.field == "Clock" {
 			gotID, gotTime := false, false
 			for x := range slice {
-				if call, ok := x.(*ssa.Call); ok && call.Call.IsInvoke() && derivesFromField(call.Call.Value, ldField(ld)) {
+				if call, ok := x.(*ssa.Call); ok && call.Call.IsInvoke() && (derivesFromField(call.Call.Value, ldField(ld)) || boundToField(stb, call.Call.Value, ldField(ld))) {
 					switch call.Call.Method.Name() {
 					case "GetID":
 						gotID = true
@@ -398,6 +398,68 @@ func runC07(c *Ctx, r *Report) {
 			continue
 		}
 		lenOK, elemOK, nst, why := elementwise(ms, isSrc, srcName)
+		if nst == 0 {
+			// the list is filled by a helper it is handed to together with the getter's list:
+			// fill(dst, e.GetF()) storing dst[i] from src[i]
+			if refs := ms.Referrers(); refs != nil {
+				for _, ref := range *refs {
+					call, ok := ref.(*ssa.Call)
+					if !ok {
+						continue
+					}
+					g := call.Call.StaticCallee()
+					if g == nil || !p.firstParty(calleePkg(g)) || len(g.Blocks) == 0 {
+						continue
+					}
+					di, si := -1, -1
+					for ai, a := range call.Call.Args {
+						if a == ssa.Value(ms) {
+							di = ai
+						}
+						if isSrc(a) {
+							si = ai
+						}
+					}
+					if di < 0 || si < 0 || di >= len(g.Params) || si >= len(g.Params) {
+						continue
+					}
+					dstP, srcP := g.Params[di], g.Params[si]
+					elemOK, nst, why = true, 0, ""
+					if drefs := dstP.Referrers(); drefs != nil {
+						for _, dr := range *drefs {
+							ia, ok := dr.(*ssa.IndexAddr)
+							if !ok {
+								continue
+							}
+							for _, u := range *ia.Referrers() {
+								st, ok := u.(*ssa.Store)
+								if !ok || st.Addr != ssa.Value(ia) {
+									continue
+								}
+								nst++
+								good := false
+								for x := range backSlice(st.Val, nil) {
+									if ld, ok := x.(*ssa.UnOp); ok && ld.Op == token.MUL {
+										if src, ok := ld.X.(*ssa.IndexAddr); ok && src.Index == ia.Index && src.X == ssa.Value(srcP) {
+											good = true
+										}
+									}
+									// `for i, c := range src`: the element is extracted from the range iterator's tuple
+								}
+								if !good {
+									// range-with-value form: element i comes from the iteration over src whose index is ia.Index
+									good = rangeElemOf(st.Val, ia.Index, srcP)
+								}
+								if !good {
+									elemOK = false
+									why = "element i of the list filled by " + g.Name() + " is not computed from element i of its source"
+								}
+							}
+						}
+					}
+				}
+			}
+		}
 		r.Check(lenOK && elemOK && nst > 0, "R-C07.2", key, ms.Pos(),
 			"the signed "+lf.field+" list has the getter's length and element i comes from element i",
 			fmt.Sprintf("the signed %s list is not an element-wise image of %s() (length-from-getter=%v, element-wise=%v): %s — duplicates, order or membership of links are not bound by the signature", lf.field, lf.getter, lenOK, elemOK, why))
@@ -754,4 +816,49 @@ func sigCheckDominates(c *Ctx, r *Report, rule string, verify *Fn) {
 		}
 	})
 	r.Floor(rule, "success returns of "+verify.Name, nsucc, 1)
+}
+
+// boundToField: v is the parameter of a first-party helper, and a call of that helper in fn hands in, for that
+// parameter, a value that derives from the field.
+func boundToField(fn *ssa.Function, v ssa.Value, field *types.Var) bool {
+	q, ok := v.(*ssa.Parameter)
+	if !ok || q.Parent() == nil || field == nil {
+		return false
+	}
+	idx := -1
+	for i, pq := range q.Parent().Params {
+		if pq == q {
+			idx = i
+		}
+	}
+	found := false
+	allInstrs(fn, true, func(ins ssa.Instruction) {
+		if call, ok := ins.(*ssa.Call); ok && call.Call.StaticCallee() == q.Parent() && idx >= 0 && idx < len(call.Call.Args) {
+			if derivesFromField(call.Call.Args[idx], field) {
+				found = true
+			}
+		}
+	})
+	return found
+}
+
+// rangeElemOf: val derives from the element of a `for i, c := range src` iteration whose index is idx.
+func rangeElemOf(val ssa.Value, idx ssa.Value, src ssa.Value) bool {
+	for x := range backSlice(val, nil) {
+		// go/ssa lowers range over a slice to an index loop: the element is src[i] loaded through IndexAddr
+		if ld, ok := x.(*ssa.UnOp); ok && ld.Op == token.MUL {
+			if ia, ok := ld.X.(*ssa.IndexAddr); ok && ia.X == src {
+				if ia.Index == idx {
+					return true
+				}
+				// the loop index and the store index are the same φ+1 chain
+				if b1, ok := ia.Index.(*ssa.BinOp); ok {
+					if b2, ok := idx.(*ssa.BinOp); ok && b1 == b2 {
+						return true
+					}
+				}
+			}
+		}
+	}
+	return false
 }
